@@ -1,6 +1,7 @@
 """C04 -- built polyhedra are closed, consistently oriented, outward per OpenSCAD."""
 import meshprop, meshoracle, mathprop, vlib
 RUN_TARGETS = ['Run/MeshOps.vo']
+WITNESS = ['Props/Witness.vo']     # non-vacuity examples for the conditional theorems (built with the property)
 TRUSTED = ['hand model coq/Geom/Dim3.v (linear_extrude, cylinder, loft, rotate_extrude, sweep) tied by the differential run: faces identical, points within 1e-9',
            'closedness/orientation oracle props/meshoracle.py on implementation output for every builder incl. thread meshes and viewer edges (exploration)']
 ASSUMPTIONS = ['profiles are simple and clockwise (generated so)', 'positive volume is only judged for results that cannot self-intersect (all but sweep) and that are not needle-thin']
